@@ -1,4 +1,59 @@
+(* C07 — Countdown and staircase timers fire once, on time, and survive a reboot.
+   Property theorems only: each is closed by `exact` of a lemma proved in C07/Proofs.v.
+   `e` selects the variant of supla_esp_countdown_timer_countdown (false: unchanged tree, true: proposed repair
+   docs/fixes/C07_rearm_starvation.diff); the correspondence run uses the variant found in the tree. *)
 From Coq Require Import List ZArith.
 Import ListNotations.
 From V Require Import Base.Bytes Gen.RelayConsts C07.Model C07.Proofs.
 Local Open Scope Z_scope.
+
+(* Key invariant: after any history (commands on any channels, local switches, advances with any lateness script,
+   restarts, staircase changes) the shared timer is armed and its period is at most clamp(time_left/10, 50, 1000)
+   of every running slot. *)
+Theorem C07_armed_period_bound : forall e c evs,
+  wf_cfg c -> Forall wf_ev evs -> NWrun e c (start e c) evs ->
+  let s := run_from e c (start e c) evs in
+  forall x, In x (slots s) -> active x = true ->
+    t_on (tcd s) = true /\ CD_MIN <= delay s <= clampd (s_left x) /\ t_per (tcd s) = delay s * 1000.
+Proof. intros e c evs W Wev N. exact (armed_period_bound_thm e c W evs Wev N). Qed.
+Print Assumptions C07_armed_period_bound.
+
+(* Never early, armed before: every switch-back (GFinish) of the trace belongs to a slot armed (GArm) for dur ms at
+   true time t0, and it is evaluated more than (dur-1) ms after t0: the device's millisecond clock shows at least dur
+   elapsed milliseconds (the clock is truncated to whole milliseconds, see C07_submillisecond_early_witness). *)
+Theorem C07_never_early : forall e c evs,
+  wf_cfg c -> Forall wf_ev evs -> NWrun e c (start e c) evs ->
+  forall tcb ch tg t0 dur u0 u, In (GFinish tcb ch tg t0 dur u0 u) (run e c evs) ->
+    (dur - 1) * 1000 < tcb - t0 /\ In (GArm t0 ch dur tg) (run e c evs).
+Proof. intros e c evs W Wev N. exact (never_early_thm e c W evs Wev N). Qed.
+Print Assumptions C07_never_early.
+
+(* At most once: no two switch-backs of the trace belong to the same arming (channel, arming time). *)
+Theorem C07_at_most_once : forall e c evs,
+  wf_cfg c -> Forall wf_ev evs -> NWrun e c (start e c) evs ->
+  NoDup (fins (outs (run_from e c (start e c) evs))).
+Proof. intros e c evs W Wev N. exact (at_most_once_thm e c W evs Wev N). Qed.
+Print Assumptions C07_at_most_once.
+
+(* Refutations (witnesses computed by the kernel; the same inputs are in corpus/C07 and fail on the real code). *)
+Theorem C07_old_code_refuted :
+  fin_late (run false storm_cfg storm_evs) 0 = [1501200] /\ fin_late (run true storm_cfg storm_evs) 0 = [500].
+Proof. exact old_code_refuted_thm. Qed.
+Print Assumptions C07_old_code_refuted.
+
+Theorem C07_on_time_busy_wait_refuted :
+  gpio_edges (run false serial_cfg serial_evs) 14 = [(70150, 1); (420150, 0)] /\
+  gpio_edges (run true serial_cfg serial_evs) 14 = [(70150, 1); (420150, 0)].
+Proof. exact busy_wait_late_refuted_thm. Qed.
+Print Assumptions C07_on_time_busy_wait_refuted.
+
+Theorem C07_submillisecond_early_witness :
+  gpio_edges (run false storm_cfg early_evs) 5 = [(11008, 1); (50010, 0)] /\ fin_late (run false storm_cfg early_evs) 1 = [-998].
+Proof. exact submillisecond_early_witness_thm. Qed.
+Print Assumptions C07_submillisecond_early_witness.
+
+Theorem C07_restore_needs_flags_refuted :
+  gpio_edges (run false (late_cfg true) late_evs) 4 = [(10030, 1); (2020050, 0)] /\
+  gpio_edges (run false (late_cfg false) late_evs) 4 = [(10030, 1); (2020050, 0); (8084070, 1)].
+Proof. exact restore_needs_flags_refuted_thm. Qed.
+Print Assumptions C07_restore_needs_flags_refuted.
